@@ -189,7 +189,7 @@ class Problem:
             prop_vars, prop_algorithm, prop_params = propagator
             triggers = GET_TRIGGERS_FCTS[prop_algorithm](len(prop_vars), prop_params)
             for prop_var_idx, prop_var in enumerate(prop_vars):
-                self.triggers[self.dom_indices_arr[prop_var], propagator_idx] = triggers[prop_var_idx]
+                self.triggers[self.dom_indices_arr[prop_var], propagator_idx] |= triggers[prop_var_idx]
         logger.debug("Problem initialized")
         logger.info(f"Problem has {self.propagator_nb} propagators")
         logger.info(f"Problem has {self.shr_domain_nb} variables")
